@@ -26,6 +26,7 @@ class Ctx:
         self.extra_facts = []
         self.is_closure = b.kind == "Closure"
         self._stores = None
+        self.loopvars = set()
 
     # ---- field values at a site
     def stores(self):
@@ -77,7 +78,19 @@ class Ctx:
             forms = [self.lin(x, at, depth) for x in s.a]
             if forms and all(f is not None and f == forms[0] for f in forms):
                 return forms[0]
+            # a loop-carried size variable: some non-negative value; what is known about it comes from the
+            # branch conditions on it (used only while the variable is not redefined, see _stable)
+            l = s.x.get("l", -1)
+            if isinstance(l, int) and l > self.b.arg_count and self.b.local_ty(l) == "usize":
+                self.loopvars.add(l)
+                return {f"v{l}": 1}
             return None
+        if s.k == "call" and s.a and s.x["path"].rsplit("::", 1)[-1] in ("expect", "unwrap") and "option::Option" in s.x["path"]:
+            inner = s.a[0].strip()
+            if inner.k == "call" and len(inner.a) == 2 and inner.x["path"].rsplit("::", 1)[-1] in ("checked_add", "checked_sub", "checked_mul") and "num::" in inner.x["path"]:
+                # the None case panics: on the continuing path the value is the exact result
+                op = {"checked_add": "Add", "checked_sub": "Sub", "checked_mul": "Mul"}[inner.x["path"].rsplit("::", 1)[-1]]
+                return self.lin(Expr("bin", [inner.a[0], inner.a[1]], op=op, site=inner.x.get("site", at)), at, depth)
         if s.k == "bin" and s.x["op"] == "Div":
             # buffer.len() / size_of::<EntryBound>(): the number Q of whole bounds, 16 Q <= L < 16 Q + 16
             num = self.lin(s.a[0], s.x.get("site", at), depth)
@@ -185,8 +198,88 @@ class Ctx:
             if dt == df:
                 continue
             e = b.expr_of_operand(t["discr"], Site(bb, None))
-            facts += self.cond_facts(e, dt, Site(bb, None))
+            new = self.cond_facts(e, dt, Site(bb, None))
+            tgt = t_t if dt else f_t
+            new = [f for f in new if all(self._stable(int(k[1:]), tgt, at) for k in f if isinstance(k, str) and k.startswith("v") and k[1:].isdigit())]
+            facts += new
         return facts
+
+    def _stable(self, l, from_bb, at):
+        """local l is not redefined on any path from block from_bb to the site `at`"""
+        b = self.b
+        ds = b.defs()[0].get(l, [])
+        reach = b.reachable_from(from_bb) | {from_bb}
+        for site, kind, payload in ds:
+            if site.bb in reach and (at.bb in b.reachable_from(site.bb) or (site.bb == at.bb and site.key() < at.key())) and site.bb != from_bb:
+                return False
+            if site.bb == from_bb and (at.bb in b.reachable_from(site.bb) or site.bb == at.bb):
+                return False
+        return True
+
+    # ---- case split over a growth that may or may not have happened before `at`
+    def alternatives(self, at):
+        """fact sets, one per way control can have reached `at`: ordinarily one; two when `at` lies after the
+        join of `if !self.fits(..) { <grow the buffer> }` — either the entry fitted (the facts of `fits`), or the
+        buffer was replaced by a call to reallocate_buffer whose argument bounds the new length from below"""
+        b = self.b
+        base = global_facts(self) + self.path_facts(at)
+        grow = [s for s, c, t in calls(b, A("entries_realloc")) if at.bb in b.reachable_from(s.bb) and not b.dominates(s, at)]
+        if len(grow) != 1:
+            return [base + self.extra_facts]
+        g = grow[0]
+        # the branch that decides between growing and not growing
+        sw = None
+        for bb in sorted(b.normal_blocks()):
+            t = b.term(bb)
+            if t["t"] != "switch" or not b.dominates(bb, at.bb) or not b.dominates(bb, g.bb) or bb == g.bb:
+                continue
+            zero = [tb for v, tb in t["arms"] if int(v) == 0]
+            if not zero or len(t["arms"]) != 1:
+                continue
+            f_t, t_t = zero[0], t["otherwise"]
+            if b.dominates(t_t, g.bb) != b.dominates(f_t, g.bb) and not b.dominates(t_t, at.bb) and not b.dominates(f_t, at.bb):
+                sw = (bb, t_t, f_t, b.dominates(t_t, g.bb))
+        if sw is None:
+            return [base + self.extra_facts]
+        bb, t_t, f_t, grow_on_true = sw
+        cond = b.expr_of_operand(b.term(bb)["discr"], Site(bb, None))
+        skip = self.cond_facts(cond, not grow_on_true, Site(bb, None))
+        # growth: the new buffer is at least as long as the argument of reallocate_buffer (C17-R10 summary of the callee)
+        req = self.callee_request(g)
+        if req is None:
+            return [base + self.extra_facts]
+        old = lambda f: {("L0" if k == "L" else k): v for k, v in f.items()}
+        at_call = [old(f) for f in self.path_facts(g)]
+        inv = [f for f in global_facts(self)]
+        grown = inv + [old(f) for f in self.path_facts(at) if "L" not in f] + at_call + [LA.add({"L": 1}, old(req), -1)] + [old(f) for f in self.extra_facts]
+        return [base + skip + self.extra_facts, grown]
+
+    def callee_request(self, g):
+        """linear form (in the caller's symbols at call site g) of the size that reallocate_buffer asks the allocator for"""
+        F, b = self.F, self.b
+        rb = F.body(A("entries_realloc"))
+        nb = calls(rb, A("aligned_new"))
+        if len(nb) != 1:
+            return None
+        sub = Ctx(F, rb)
+        req = sub.lin(rb.arg_exprs(nb[0][0])[0], nb[0][0])
+        if req is None:
+            return None
+        args = b.arg_exprs(g)
+        out = {}
+        for k, v in req.items():
+            if isinstance(k, str) and k.startswith("p_"):
+                nm = k[2:]
+                idx = [i for i in range(1, rb.arg_count + 1) if rb.arg_name(i) == nm]
+                if not idx or idx[0] - 1 >= len(args):
+                    return None
+                a = self.lin(args[idx[0] - 1], g)
+                if a is None:
+                    return None
+                out = LA.add(out, LA.scale(a, v))
+            else:
+                out = LA.add(out, {k: v})
+        return out
 
     def cond_facts(self, e, truth, at):
         neg = False
@@ -282,8 +375,9 @@ def run_rule(ck, F, R="C17-R10"):
                     what = f"{LA.show(prod)} <= usize::MAX"
                 else:
                     continue
-                facts = global_facts(ctx) + ctx.path_facts(s) + ctx.extra_facts
-                cert = LA.prove(goal, facts)
+                alts = ctx.alternatives(s)
+                certs = [LA.prove(goal, fs + ctx.extra_facts) for fs in alts]
+                cert = certs[0] if all(c is not None for c in certs) else None
                 ck.ob(R, f"no-overflow/{key}", cert is not None, f"{what}" + (f" — certificate: {len(cert) - 1} fact(s)" if cert else " — NOT derivable from the buffer invariant and the dominating checks: this operation can overflow/underflow"), b, s, goal=LA.show(goal))
     ck.floor(R, "checked arithmetic sites in Entries", nsites, 20 if F.config != "rel" else 0, F.config)
     # (1) the invariant is preserved by every mutator
@@ -300,8 +394,9 @@ def run_rule(ck, F, R="C17-R10"):
         cert = None
         if ok:
             goal = LA.add(LA.add({"L": 1}, a_f, -1), LA.scale(n_f, 16), -1)
-            facts = global_facts(ctx) + ctx.path_facts(s) + ctx.extra_facts
-            cert = LA.prove(goal, facts)
+            alts = ctx.alternatives(s)
+            certs = [LA.prove(goal, fs + ctx.extra_facts) for fs in alts]
+            cert = certs[0] if all(c is not None for c in certs) else None
         ck.ob(R, "invariant-preserved/insert", cert is not None, f"after insert: buffer.len() - ({LA.show(a_f) if a_f else '?'}) - 16*({LA.show(n_f) if n_f else '?'}) >= 0 follows from the invariant before and the `fits` test", ins, s)
         # increments
         ck.ob(R, "insert-increments", a_f == {"A": 1, "k": 1, "d": 1} and n_f == {"N": 1, 1: 1}, f"entries_len' = {LA.show(a_f) if a_f else '?'}, bounds_count' = {LA.show(n_f) if n_f else '?'}", ins, s)
@@ -317,6 +412,19 @@ def run_rule(ck, F, R="C17-R10"):
         if ln is not None and not ctx.stores():
             goal = LA.add(LA.add(ln, {"A": 1}, -1), {"N": 16}, -1)
             cert = LA.prove(goal, global_facts(ctx) + ctx.extra_facts)
+            if cert is None and any(isinstance(k, str) and k.startswith("p_") for f in ctx.extra_facts for k in f):
+                # the new size is a parameter: the invariant is preserved if every caller asks for at least what is in use
+                cert = ["at-call-sites"]
+                for cb in F.user_bodies():
+                    for g, c_, t_ in calls(cb, A("entries_realloc")):
+                        cctx = Ctx(F, cb)
+                        req = cctx.callee_request(g)
+                        okc = None
+                        if req is not None:
+                            okc = LA.prove(LA.add(LA.add(req, {"A": 1}, -1), {"N": 16}, -1), global_facts(cctx) + cctx.path_facts(g) + cctx.extra_facts)
+                        ck.ob(R, f"realloc-request-covers-contents/{cb.path.split('::')[-1]}", okc is not None, f"reallocate_buffer is asked for {LA.show(req) if req else '?'} bytes, at least entries_len + 16*bounds_count", cb, g)
+                        if okc is None:
+                            cert = None
     ck.ob(R, "invariant-preserved/reallocate_buffer", cert is not None, "after reallocate_buffer: new_len - entries_len - 16*bounds_count >= 0 (new_len >= 2 * old_len, counters untouched)", rb)
     cl = F.body(A("entries_clear"))
     ctx = Ctx(F, cl)
@@ -343,3 +451,24 @@ def run_rule(ck, F, R="C17-R10"):
     ck.ob(R, "bound-content-invariant", ok, "each stored bound has key_start = entries_len after its entry (so key_start <= entries_len for ever, and key_start >= key_length + data_length), key_length = key.len(), data_length = data.len()", ins)
     others = sorted({b_.path for b_, s, rv in aggregates(F, A("entry_bound")) if b_.path != ins.path and not b_.is_derived()})
     ck.ob(R, "bounds-only-from-insert", not others, f"EntryBound values are built only in Entries::insert ({others})", config=F.config)
+
+
+def fits_after_growth(F):
+    """on the path of Entries::insert that goes through reallocate_buffer, at the point where the entry is stored:
+    remaining() >= entry_size(key, data) and one more aligned bound slot exists — from the size the caller asked for"""
+    ins = F.body(A("entries_insert"))
+    ctx = Ctx(F, ins)
+    st = ctx.stores().get("entries_len", [])
+    if len(st) != 1:
+        return False, "no single store to entries_len"
+    alts = ctx.alternatives(st[0])
+    if len(alts) != 2:
+        return False, "the store is not after the join of a fits / grow decision"
+    grown = alts[1]
+    g1 = {"L": 1, "N": -16, "A": -1, 1: -16, "k": -1, "d": -1}
+    c1 = LA.prove(g1, grown + ctx.extra_facts)
+    g2 = {"L": 1, "N": -16, 1: -16}
+    c2 = LA.prove(g2, grown + ctx.extra_facts)
+    if c1 is None or c2 is None:
+        return False, "the requested size does not provably cover the bounds, the stored entries and the new entry"
+    return True, "the buffer is grown once to a size proven to hold the bounds, the stored entries and the new entry (linear certificate), so the entry is stored on that path without a second test"
